@@ -87,9 +87,18 @@ func main() {
 		}
 		alphabet = append(alphabet, op{"del", p, ""})
 	}
-	depth := 4
+	depth, maxTable := 4, 3
 	if rep.Thorough() {
-		depth = 5
+		depth, maxTable = 6, 4
+		patterns = append(patterns, "/a/b/c/", "/ab/", "/a/b/c")
+		requestPaths = append(requestPaths, "/a/b/c/", "/ab/c", "/a/b/c/d/e", "/A/b/C/d", "/a/b/cd")
+		alphabet = nil
+		for _, p := range patterns {
+			for _, u := range urls {
+				alphabet = append(alphabet, op{"save", p, u})
+			}
+			alphabet = append(alphabet, op{"del", p, ""})
+		}
 	}
 	seen := map[string]bool{}
 	frontier := [][]op{nil}
@@ -113,7 +122,7 @@ func main() {
 				delete(model, canon(o.pattern))
 			}
 		}
-		if len(model) > 3 {
+		if len(model) > maxTable {
 			return "", false
 		}
 		var ks []string
